@@ -186,6 +186,14 @@ prop("C08", "exploration", "ordered transport-event log (model transport calls /
      "Non-trivial iff construction reached DRIVER_OK (or the documented refusal); distinct by (driver, transport, offered set).",
      [stage("checked"), stage("release", scale=1000)], [stage("checked"), stage("release")])
 
+prop("C09", "fault_enumeration", "instrumented Hal with allocation-failure injection (every k) + merged ordered event log (transport events, ledger events, #[global_allocator] spy hits) checked by a liveness rule",
+     "For every driver x transport variant x ring-feature variant the fault-free run is recorded and then re-run with the k-th dma_alloc failing for every k = 1..=A+1 (construction and the allocation-bearing part of the usage script); each run must end in Err(DmaError) rather than a panic, every region handed out must come back exactly once with identical address, pointer and page count (ledger), and nothing may stay allocated. "
+     "Independently the merged event log is replayed through a liveness automaton: a dma_dealloc of a queue's region, or a heap free of memory still shared with the device (caught by a #[global_allocator] wrapper consulting the share table), is a violation while that queue is live - after DRIVER_OK and before queue_unset took effect, the device was reset or the transport was dropped. Drops with requests outstanding and construction errors after DRIVER_OK are separate scenarios.",
+     "queue_unset is a no-op on PCI-like transports (one model variant + the real PCI transport), so only reset/transport drop quiesces there. Heap (non-DMA) leaks of indirect tables when a queue is dropped with chains outstanding are outside the statement. The allocator spy tracks at most 512 concurrently shared ranges.",
+     "a case is (driver in 11, transport in {model, model with no-op queue_unset, model legacy layout, MMIO modern, MMIO legacy, PCI}, ring-feature variant, scenario in {construct + use + drop, construct + leave requests/buffers outstanding + drop}, k) with k ranging over 'no fault' and every allocation index 1..=A+1; plus 9P bad-tag (empty / invalid UTF-8 / longer than the window) and net undersized-buffer construction errors. "
+     "Non-trivial iff the k-th allocation was actually reached (or no fault was planned); distinct by the tuple. Enumeration over k is exhaustive for each configuration (coverage.exhaustive refers to k only).",
+     [stage("checked")], [stage("checked"), stage("release"), stage("asan", optional=True)])
+
 NOT_YET = {}
 import re
 props = [json.loads(l) for l in open(os.path.join(ROOT, "properties.jsonl"))]
@@ -233,7 +241,7 @@ def main():
     print("wrote plan.json, MANIFEST.json:", len(checks), "checks,", len(NOT_YET), "not_applicable")
 
 HOOK_COMMITS = ["3c7b69a"]
-FIX_COMMITS = ["0598fcf", "bc247e1", "811bf5f", "d0efe8d", "71da244", "db6be61", "1b3383f", "56251f9", "86dc6a3", "74ba7fd", "cbab019", "ea19641", "6120dbe"]
+FIX_COMMITS = ["0598fcf", "bc247e1", "811bf5f", "d0efe8d", "71da244", "db6be61", "1b3383f", "56251f9", "86dc6a3", "74ba7fd", "cbab019", "ea19641", "6120dbe", "2b98425"]
 
 if __name__ == "__main__":
     main()
